@@ -17,6 +17,11 @@ import (
 	"github.com/nsqio/nsq/internal/version"
 )
 
+// maxIdentifyBodySize bounds the size an IDENTIFY body may declare. The body is a small
+// JSON document (addresses, ports, version); the size arrives from the network as a signed
+// 32-bit integer and is used to allocate the read buffer, so it must be range checked.
+const maxIdentifyBodySize = 1 << 20
+
 type LookupProtocolV1 struct {
 	nsqlookupd *NSQLookupd
 }
@@ -208,6 +213,16 @@ func (p *LookupProtocolV1) IDENTIFY(client *ClientV1, reader *bufio.Reader, para
 	err = binary.Read(reader, binary.BigEndian, &bodyLen)
 	if err != nil {
 		return nil, protocol.NewFatalClientErr(err, "E_BAD_BODY", "IDENTIFY failed to read body size")
+	}
+
+	if int64(bodyLen) > maxIdentifyBodySize {
+		return nil, protocol.NewFatalClientErr(nil, "E_BAD_BODY",
+			fmt.Sprintf("IDENTIFY body too big %d > %d", bodyLen, maxIdentifyBodySize))
+	}
+
+	if bodyLen <= 0 {
+		return nil, protocol.NewFatalClientErr(nil, "E_BAD_BODY",
+			fmt.Sprintf("IDENTIFY invalid body size %d", bodyLen))
 	}
 
 	body := make([]byte, bodyLen)
